@@ -142,7 +142,7 @@ func (ri *replayInfo) queryTerms() []string {
 		}
 		seen := map[string]bool{}
 		for _, t := range out {
-			if !seen[t] && !isLiteral(t) {
+			if !seen[t] && !isLiteral(t) && len(t) < 700 && len(ri.terms) < 5000 {
 				seen[t] = true
 				ri.terms = append(ri.terms, t)
 			}
